@@ -17,6 +17,14 @@ func (core *JApiCore) buildCatalog() *jerr.JApiError {
 		return core.directivesWithPastes[0].KeywordError(jerr.DirectiveJSIGHTShouldBeTheFirst)
 	}
 
+	if len(core.directivesWithPastes) == 0 {
+		// Nothing but comments and macro definitions: the mandatory JSIGHT directive is missing.
+		return &jerr.JApiError{
+			Msg:      jerr.DirectiveJSIGHTShouldBeTheFirst,
+			Location: jerr.Location{File: core.scanner.File()},
+		}
+	}
+
 	return core.addDirectives()
 }
 
